@@ -8,13 +8,13 @@ from mc.engine import Outcome, sha
 
 ID = 'C18'
 ENGINE = 'E2-style exhaustive interleaving of per-logical-file add_* sequences + E1 product of frame layouts'
-RULE = ("logical files: 2..3 logical files, each with one of four add_* sequences (origin first / last / explicit "
+RULE = ("logical files: 2..3 logical files, each with one of seven add_* sequences (two contain a rejected call, before / after an accepted one of the same set),  (origin first / last / explicit "
         "reference, with and without a zone and a parameter referring to it), ALL interleavings of the sequences, x "
         "set-name assignment {distinct per logical file, all default, partially shared (only ZONE default)} x data "
         "passed to write() {none, unrelated array, array overriding the equally named data set of every file}; a "
         "configuration that shares a set between logical files must raise, every other one is written and each "
         "logical file is compared with the model (inventory, identities, origins, references, rows, header order). "
-        "frames: 1..3 frames with different row counts, partly equal channel names, data inline or passed to write (dict, HDF5, one structured array for all frames); "
+        "a row window applied to all files; frames: 1..3 frames with different row counts, partly equal channel names, channels in one or per-frame CHANNEL sets, row windows and input chunks, data inline or passed to write (dict, HDF5, one structured array for all frames); "
         "non-trivial = case whose outcome was compared with the model")
 ASSUMPTIONS = ["strict reader mc/rp66.py", "reference model mc/model.py", "a shared-set configuration may be rejected at "
                "add_* or at write"]
